@@ -106,7 +106,7 @@ func vpH_C10_T_prompt() {
 // instance gets the record first. From then on only the candidate's watch-triggered takeover path can act:
 // its first k (0..2) attempts lose the race against a refresh of the incumbent; it must lead within 3H+.
 func vpH_C10_T_prompt_watch() {
-	H := time.Second
+	H := []time.Duration{time.Second, 30 * time.Millisecond}[vpChoose("H", 2)]
 	vpSetOpt("rand-fixed", 1)
 	st := vpNewStore("g", 0)
 	st.write("env:hi", "create", vpRecMk("hi", "tok-hi", 9), false, 0)
@@ -127,7 +127,7 @@ func vpH_C10_T_prompt_watch() {
 	cb := &vpCallbacks{}
 	cb.install(e)
 	_ = e.Start(vpRootCtx())
-	time.Sleep(H + H/4) // settled follower: start attempt and first round are over
+	time.Sleep(H + 500*time.Millisecond) // settled follower: start attempt and first round are over
 	vpQuiesce()
 	vpAssert("harness.follower", !e.IsLeader())
 	// hi is gone (expired silently), low created the record before anybody else
